@@ -2496,7 +2496,9 @@ class CencSampleEncryptionBox(FullBox):
         return rv
 
     def encode_fields(self, dest):
-        if len(self.samples) > 0:
+        # UseSubsampleEncryption describes the layout of every sample
+        # entry, only set it when sub-sample data will be written
+        if any(samp.subsamples for samp in self.samples):
             self.flags |= 0x02
         super().encode_fields(dest)
 
